@@ -20,17 +20,23 @@ lazy_static! {
 ///
 /// See also: [`get_infinity`], [`set_infinity`]
 pub fn default_infinity() {
+    #[cfg(clarabel_verif)]
+    crate::verif::emit(crate::verif::Event::InfDefault);
     INFINITY.store(INFINITY_DEFAULT, Ordering::Relaxed);
 }
 /// Set the internal infinity bound to a new value.
 ///
 /// See also: [`get_infinity`], [`default_infinity`]
 pub fn set_infinity(v: f64) {
+    #[cfg(clarabel_verif)]
+    crate::verif::emit(crate::verif::Event::InfSet);
     INFINITY.store(v, Ordering::Relaxed);
 }
 /// Get the current value of the internal infinity bound.
 ///
 /// See also: [`set_infinity`], [`default_infinity`]
 pub fn get_infinity() -> f64 {
+    #[cfg(clarabel_verif)]
+    crate::verif::emit(crate::verif::Event::InfGet);
     INFINITY.load(Ordering::Relaxed)
 }
